@@ -161,3 +161,50 @@ Example C17_sharing_accepts_setter_in_shared_method :
   sharing_check gen_mut_tokens gen_mut_self_methods gen_unsafe_impls
     (("evil", "&self", ["EC_KEY_set_private_key"], ["k"]) :: gen_lc_fns) = true.
 Proof. vm_compute. reflexivity. Qed.
+
+(* ================= C17_each_thread_sees_its_sequential_run (added after the first audit) ================= *)
+Local Open Scope nat_scope.
+(* three threads (one idle, one with a FAILING operation), the alternating schedule: every thread gets the outputs
+   of its own sequential run *)
+Example C17_each_thread_sees_its_sequential_run_nonvacuous :
+  tagged_outputs ev 10 sched = [(0, Some 9); (2, Some 7); (0, None)] /\
+  map snd (filter (fun r => Nat.eqb (fst r) 0) (tagged_outputs ev 10 sched)) = snd (run ev 10 [1; 99]) /\
+  snd (run ev 10 [1; 99]) = [Some 9; None] /\
+  map snd (filter (fun r => Nat.eqb (fst r) 1) (tagged_outputs ev 10 sched)) = [] /\
+  map snd (filter (fun r => Nat.eqb (fst r) 2) (tagged_outputs ev 10 sched)) = [Some 7].
+Proof.
+  split; [reflexivity|]. split; [|split; [reflexivity|split]].
+  - exact (C17_each_thread_sees_its_sequential_run nat nat (option nat) ev ts3 sched 10 0 sched_ok ltac:(cbn; lia)).
+  - exact (C17_each_thread_sees_its_sequential_run nat nat (option nat) ev ts3 sched 10 1 sched_ok ltac:(cbn; lia)).
+  - exact (C17_each_thread_sees_its_sequential_run nat nat (option nat) ev ts3 sched 10 2 sched_ok ltac:(cbn; lia)).
+Qed.
+(* a second schedule of the same threads (thread 2 first, thread 0 back to back) gives thread 0 the same view *)
+Definition sched' : list (nat * nat) := [(2, 3); (0, 1); (0, 99)].
+Lemma sched'_ok : interleave ts3 sched'.
+Proof.
+  unfold ts3, sched'.
+  apply (il_step ts3 2 3 []); [reflexivity|]. cbn.
+  apply (il_step [[1; 99]; []; []] 0 1 [99]); [reflexivity|]. cbn.
+  apply (il_step [[99]; []; []] 0 99 []); [reflexivity|]. cbn.
+  apply il_done. repeat constructor.
+Qed.
+Example C17_each_thread_sees_its_sequential_run_nonvacuous_other_schedule :
+  map snd (filter (fun r => Nat.eqb (fst r) 0) (tagged_outputs ev 10 sched')) =
+  map snd (filter (fun r => Nat.eqb (fst r) 0) (tagged_outputs ev 10 sched)).
+Proof.
+  rewrite (C17_each_thread_sees_its_sequential_run nat nat (option nat) ev ts3 sched' 10 0 sched'_ok ltac:(cbn; lia)).
+  rewrite (C17_each_thread_sees_its_sequential_run nat nat (option nat) ev ts3 sched 10 0 sched_ok ltac:(cbn; lia)).
+  reflexivity.
+Qed.
+(* unlike C17_interleaving_equivalent, here BOTH hypotheses are used: for a tagged list that is not a schedule of
+   ts3 the conclusion is false, and so it is for a thread number out of range when the list mentions it *)
+Example C17_each_thread_sees_its_sequential_run_nonvacuous_hyps_used :
+  map snd (filter (fun r => Nat.eqb (fst r) 0) (tagged_outputs ev 10 [(0, 99); (0, 1); (2, 3)])) <> snd (run ev 10 (nth 0 ts3 [])) /\
+  map snd (filter (fun r => Nat.eqb (fst r) 7) (tagged_outputs ev 10 [(7, 1)])) <> snd (run ev 10 (nth 7 ts3 [])).
+Proof. split; vm_compute; discriminate. Qed.
+(* it remains a consequence of C17_model_is_map above (the model has no state an interleaving could disturb):
+   the outputs are [eval k] mapped over the schedule, whatever the schedule *)
+Lemma C17_each_thread_outputs_are_a_map :
+  forall (Key Op Out : Type) (eval : Key -> Op -> Out) k (l : list (nat * Op)),
+    tagged_outputs eval k l = map (fun io => (fst io, eval k (snd io))) l.
+Proof. intros. apply tagged_outputs_map. Qed.
